@@ -142,6 +142,7 @@ class TraceRecorder(H.Recorder):
     def __init__(self):
         super().__init__(with_frac=True)
         self.low = []          # low-level log of the current operation
+        self.zs_busy = []      # zero swaps started on a busy partner (C03), also when the program then dies
         self.ops = []          # list of dict(kind=..., ..., after=snapshot)
         self.init = None
         self.sort_iters = []
@@ -187,6 +188,16 @@ class TraceRecorder(H.Recorder):
         def pick():
             rec.low.append(("pick",))
             return o_pick()
+
+        o_pte = state.pick_traj_ens
+
+        def pick_traj_ens(ens):
+            # the partner of a zero swap is being drawn: it must be idle at this moment (C03)
+            if state._locks[int(ens)]:
+                held = [i for i, x in enumerate(state._locks[:-1]) if x]
+                rec.zs_busy.append(f"a zero swap was started for partner ensemble column {int(ens)} while that ensemble is held by an "
+                                   f"in-flight job (busy columns at that moment: {held})")
+            return o_pte(ens)
 
         def pick_lock():
             entry = None
@@ -249,6 +260,7 @@ class TraceRecorder(H.Recorder):
 
         state.swap, state.lock = swap, lock
         state.pick, state.pick_lock = pick, pick_lock
+        state.pick_traj_ens = pick_traj_ens
         state.prep_md_items, state.treat_output, state.sort_trajstate = prep, treat, sort_trajstate
         self.init = self.snapshot()
 
